@@ -15,6 +15,7 @@ import (
 	"sort"
 	"strings"
 	"sync"
+	"sync/atomic"
 	"time"
 )
 
@@ -50,6 +51,7 @@ type Result struct {
 	Violations    []OracleViolation `json:"violations"`
 	Known         []OracleViolation `json:"known_findings"`
 	Crashes       []string          `json:"crashes"`
+	ResourceSkips []string          `json:"resource_skips"` // cases given up for time/memory (not crashes)
 	Streams       map[string]int    `json:"streams"`
 	Tags          map[string]int    `json:"tags"`
 	Outcomes      map[string]int    `json:"outcomes"`
@@ -74,17 +76,39 @@ func parseLine(line string) (id string, kv map[string]string) {
 	return
 }
 
+// exit status of a worker that gave up on a case because it needed more than the per-case budget of
+// time or memory (a script that makes its data grow exponentially inside built-ins, where the
+// instruction-poll budget does not bite): not a crash of the library, the case is skipped and counted
+const resourceExit = 77
+
+var caseStarted atomic.Int64
+
+func resourceWatchdog() {
+	for {
+		time.Sleep(500 * time.Millisecond)
+		var ms runtime.MemStats
+		runtime.ReadMemStats(&ms)
+		t0 := caseStarted.Load()
+		if ms.HeapAlloc > 3<<30 || (t0 != 0 && time.Now().UnixNano()-t0 > int64(45*time.Second)) {
+			os.Exit(resourceExit)
+		}
+	}
+}
+
 func workerMain(prop, tier string, seed uint64, shard, shards, from int) {
 	cases := Generate(prop, tier, seed)
 	w := bufio.NewWriter(realStdout)
 	defer w.Flush()
+	go resourceWatchdog()
 	n := 0
 	for i := range cases {
 		if i%shards != shard {
 			continue
 		}
 		if n >= from {
+			caseStarted.Store(time.Now().UnixNano())
 			line := RunImpl(&cases[i].Case)
+			caseStarted.Store(0)
 			w.WriteString(line + "\n")
 			w.Flush()
 		}
@@ -94,9 +118,9 @@ func workerMain(prop, tier string, seed uint64, shard, shards, from int) {
 
 // runWorkers runs the IMPL side in `shards` sub-processes; a worker that dies is restarted after
 // the case that killed it, which is reported as a crash.
-func runWorkers(self, prop, tier string, seed uint64, shards int, perShard [][]int, cases []GenCase) (map[string]string, []string) {
+func runWorkers(self, prop, tier string, seed uint64, shards int, perShard [][]int, cases []GenCase) (map[string]string, []string, []string) {
 	out := map[string]string{}
-	var crashes []string
+	var crashes, resource []string
 	var mu sync.Mutex
 	var wg sync.WaitGroup
 	for s := 0; s < shards; s++ {
@@ -126,12 +150,16 @@ func runWorkers(self, prop, tier string, seed uint64, shards int, perShard [][]i
 					mu.Unlock()
 					got++
 				}
-				cmd.Wait()
+				werr := cmd.Wait()
 				from += got
 				if from < len(perShard[s]) {
 					// the worker died while running case perShard[s][from]
 					mu.Lock()
-					crashes = append(crashes, cases[perShard[s][from]].Case.ID)
+					if ee, ok := werr.(*exec.ExitError); ok && ee.ExitCode() == resourceExit {
+						resource = append(resource, cases[perShard[s][from]].Case.ID)
+					} else {
+						crashes = append(crashes, cases[perShard[s][from]].Case.ID)
+					}
 					mu.Unlock()
 					from++
 				}
@@ -139,7 +167,7 @@ func runWorkers(self, prop, tier string, seed uint64, shards int, perShard [][]i
 		}(s)
 	}
 	wg.Wait()
-	return out, crashes
+	return out, crashes, resource
 }
 
 func runDrivers(driver string, shards int, perShard [][]int, cases []GenCase) map[string]string {
@@ -233,15 +261,18 @@ func main() {
 		perShard[i%nsh] = append(perShard[i%nsh], i)
 	}
 	var implOut, modelOut map[string]string
-	var crashes []string
+	var crashes, resource []string
 	var wg sync.WaitGroup
 	wg.Add(2)
-	go func() { defer wg.Done(); implOut, crashes = runWorkers(self, *prop, *tier, *seed, nsh, perShard, cases) }()
+	go func() {
+		defer wg.Done()
+		implOut, crashes, resource = runWorkers(self, *prop, *tier, *seed, nsh, perShard, cases)
+	}()
 	go func() { defer wg.Done(); modelOut = runDrivers(*driver, nsh, perShard, cases) }()
 	wg.Wait()
 
 	res := Result{Property: *prop, Tier: *tier, Seed: *seed, Cases: len(cases),
-		Streams: map[string]int{}, Tags: map[string]int{}, Outcomes: map[string]int{}, Crashes: crashes}
+		Streams: map[string]int{}, Tags: map[string]int{}, Outcomes: map[string]int{}, Crashes: crashes, ResourceSkips: resource}
 	kf := loadKnown(*known)
 	distinct := map[string]bool{}
 	implKV := map[string]map[string]string{}
@@ -301,6 +332,7 @@ func main() {
 		if stop >= 0 {
 			res.Skipped++
 		}
+		var firstDiff *Disagreement
 		keys := make([]string, 0, len(ikv))
 		for k := range ikv {
 			keys = append(keys, k)
@@ -332,9 +364,16 @@ func main() {
 			}
 			res.Compared++
 			if mv != ikv[k] {
-				res.Disagreements = append(res.Disagreements, Disagreement{ID: c.ID, Stream: gc.Stream, Key: k, Impl: ikv[k], Model: mv, Case: c.Sexp(), Script: c.Script})
-				break
+				// report the observable difference if there is one (result, then output, then variables),
+				// otherwise the first internal one
+				d := Disagreement{ID: c.ID, Stream: gc.Stream, Key: k, Impl: ikv[k], Model: mv, Case: c.Sexp(), Script: c.Script}
+				if firstDiff == nil || keyRank(k) < keyRank(firstDiff.Key) {
+					firstDiff = &d
+				}
 			}
+		}
+		if firstDiff != nil {
+			res.Disagreements = append(res.Disagreements, *firstDiff)
 		}
 		if len(res.Samples) < 8 && i%(len(cases)/8+1) == 0 {
 			res.Samples = append(res.Samples, gc.Stream+": "+truncate(c.Script, 200))
@@ -525,4 +564,29 @@ func vloNote(b bool) string {
 		return " [the script uses a value-less expression where a value is consumed]"
 	}
 	return ""
+}
+
+// keyRank orders the keys of a case by how observable they are: prep, then per-run result, output,
+// variables, truth, scopes, polls; internal layers (tokens, tree, byte code) last.
+func keyRank(k string) int {
+	if k == "prep" {
+		return 0
+	}
+	if len(k) >= 2 && k[1] >= '0' && k[1] <= '9' {
+		switch k[0] {
+		case 'r':
+			return 1
+		case 'o':
+			return 2
+		case 'g':
+			return 3
+		case 't':
+			return 4
+		case 's':
+			return 5
+		case 'p':
+			return 6
+		}
+	}
+	return 10
 }
